@@ -49,8 +49,8 @@ ERRN == <<"ERROR", 0, 0>>
 Expected(l) == <<EOFN, ERRN>> \o Declared(l)
 NumberOf(l, name) == (CHOOSE k \in DOMAIN Expected(l) : Expected(l)[k] = name) - 1
 
-\* the parser rule is  s = t* ; t = <every declared terminal> : the start state's action row must be keyed by
-\* exactly the expected numbers (and EOF for the empty sentence)
+\* the parser rule is  s = t* ; t = <the terminals in c.ref: all declared ones, or all but some that the parser never
+\* mentions> : the start state's action row must be keyed by exactly their expected numbers (and EOF for the empty sentence)
 StartKeys(T) == {RowKeys(T.actions, 0)[k] : k \in DOMAIN RowKeys(T.actions, 0)}
 
 Check(c) ==
@@ -63,7 +63,7 @@ Check(c) ==
                  LET v == c.tostring[k][1] IN
                  IF v >= 0 /\ v < n THEN c.tostring[k][2] = exp[v + 1] ELSE c.tostring[k][2] = <<"???", 0, 0>>
       lexOk == \A k \in DOMAIN c.lexed : c.lexed[k][2] = NumberOf(l, c.lexed[k][1])
-      parOk == StartKeys(c.tables) = {0} \cup 2..(n - 1)
+      parOk == StartKeys(c.tables) = {0} \cup {NumberOf(l, c.ref[k]) : k \in DOMAIN c.ref}
   IN [constsOk |-> constsOk, strOk |-> strOk, lexOk |-> lexOk, parOk |-> parOk]
 
 VARIABLES k, done
